@@ -290,7 +290,7 @@ class Engine
   {
     ++own_checks_tl_;
     if (static_cast<bool>(g) != expect) {
-      Violate("C07", Fmt("%s:guard-bool-mismatch:%s", g_cls_name, what),
+      Violate(strstr(what, "CompositeGuard") != nullptr ? "C13" : "C07", Fmt("%s:guard-bool-mismatch:%s", g_cls_name, what),
               Fmt("class=%s thread=%d %s: operator bool()=%d, expected %d", g_cls_name, t_mon.tid,
                   what, static_cast<int>(static_cast<bool>(g)), static_cast<int>(expect)));
     }
@@ -1255,6 +1255,16 @@ Run()
       while (step.load(kMo) < g_cfg.locks && NowNs() - tw < g_cfg.hang_s * 1000000000ULL) SleepNs(200000);
       if (step.load(kMo) < g_cfg.locks) {
         const int i = step.load(kMo);
+        if constexpr (!T::kMcs) {
+          const auto word = reinterpret_cast<std::atomic<uint64_t> *>(&eng.boxes_[i].lock)->load(kRlx);
+          const uint64_t s_cnt = T::kOpt ? ((word >> 32) & 0x3FFFFFFFULL) : (word & 0x3FFFFFFFFFFFFFFFULL);
+          if (s_cnt != 0 || (word >> 62) != 0) {
+            Violate("C07", Fmt("%s:grants-left-in-the-lock-word-after-every-guard-was-destroyed", T::kName),
+                    Fmt("class=%s profile=%s: all workers finished and every guard was destroyed (ghost registry empty), but lock %d's word %016" PRIx64
+                        " still encodes S:%" PRIu64 " SIX:%d X:%d - a grant that no guard owns (never released, or released twice)",
+                        T::kName, g_cfg.profile.c_str(), i, word, s_cnt, static_cast<int>((word >> 62) & 1), static_cast<int>(word >> 63)));
+          }
+        }
         Violate("C02", Fmt("%s:fresh-LockX-blocks-after-last-guard-gone", T::kName),
                 Fmt("class=%s profile=%s: all workers finished and released everything (ghost registry empty), yet a fresh "
                     "LockX on lock %d did not return within %" PRIu64 " s; raw lock word %016" PRIx64,
@@ -1397,6 +1407,7 @@ main(int argc, char **argv)
   g_cfg.hold_ns = a.U("hold", 2000);
   g_cfg.hang_s = a.U("hang_s", 20);
   g_cfg.arbitrary_versions = a.U("arbver", 0) != 0;
+  if (a.U("preempt", 0) != 0) PreempterStart(g_cfg.seed, 30, 400, 10, 200);
   if (g_cfg.threads < 1 || g_cfg.threads > kMaxThreads || g_cfg.locks < 1 || g_cfg.locks > kMaxLocks) {
     fprintf(stderr, "bad threads/locks\n");
     return 2;
